@@ -41,12 +41,12 @@ Section C20.
     (forall id, In id (closes ev) -> ~ In id (ids st')).
   Proof. exact (client_descriptors_balanced expand_str ranged_sorted ranged_plain sorted rmatch compress short_circuit). Qed.
 
-  (* Device side, every history from start-up (coprocess transports): in every reachable state each device holds a
+  (* Device side, every history from start-up (every transport): in every reachable state each device holds a
      descriptor exactly when it is connected or connecting, so
         descriptors beyond the listeners = live clients + attached devices,   children = attached (coprocess) devices,
      and every device still satisfies the device-layer invariant (no stale descriptor, login bookkeeping consistent). *)
   Theorem C20_device_descriptors : forall st now plans rs,
-    boot compress st -> all_pipe st -> rounds_plain rs -> Z.of_nat (length rs) < INT_MAX - 1 ->
+    boot compress st -> Z.of_nat (length rs) < INT_MAX - 1 ->
     exists st1 o, dinit st now plans = Ok (st1, o) /\
       match drun expand_str ranged_sorted ranged_plain sorted rmatch compress short_circuit st1 rs [] with
       | Ok (st', outs) =>
@@ -56,8 +56,8 @@ Section C20.
       | _ => False
       end.
   Proof.
-    intros st now plans rs Hb Hp Hr Hn.
-    destruct (daemon_invariant expand_str ranged_sorted ranged_plain sorted rmatch compress short_circuit st now plans rs Hb Hp Hr Hn) as (st1 & o & E & H).
+    intros st now plans rs Hb Hn.
+    destruct (daemon_invariant expand_str ranged_sorted ranged_plain sorted rmatch compress short_circuit st now plans rs Hb Hn) as (st1 & o & E & H).
     exists st1, o. split; [exact E|].
     destruct (drun expand_str ranged_sorted ranged_plain sorted rmatch compress short_circuit st1 rs []) as [[st' outs]| | | |]; try contradiction; [|exact I].
     destruct H as (_ & _ & Hd & _). split.
